@@ -111,8 +111,16 @@ impl C12 {
         let exp_len = match cur::expand(f) {
             Out::Ok(e) => e.len(),
             _ => {
-                // C01's concern; the wrapper must then report a negative status, which is checked below
-                0
+                // the current build cannot expand the file (C01's concern). The statement's premise "a file whose
+                // expanded form is at most 128 MiB" is about the file, though: if the frozen reference build
+                // expands it, the wrappers still owe the round trip, with a buffer sized from that expansion
+                match crate::api::ref1::expand(f) {
+                    Out::Ok(e) => {
+                        ctx.count("expansion_sized_by_the_reference_build");
+                        e.len()
+                    }
+                    _ => 0,
+                }
             }
         };
         ctx.phase("verdict: C ABI wrappers");
@@ -432,7 +440,33 @@ impl Monitor for C12 {
                 (r.bytes(n), "arbitrary non-container bytes".to_string(), true)
             }
             2 => (vec![], "empty input".to_string(), true),
-            3 | 4 => {
+            3 => {
+                // one of the pathological-but-valid stream shapes, walked systematically, behind a wrapper
+                let idx = k / 10;
+                let (name, d, p) = crate::special::shape(idx, &mut r);
+                match crate::comp::zlib_inflate_raw(&d, p.len() + 1024) {
+                    Some((pp, used)) if pp == p && used == d.len() => {
+                        let s = streams::Stream {
+                            source: 4,
+                            recipe: format!("shape: {}", name),
+                            bytes: d,
+                            plain: p,
+                        };
+                        let w = r.below(4) as u8;
+                        let (wb, _, _, variant) = wrap::wrap_stream(&mut r, &s, w, false);
+                        let mut f = wrap::junk_clean(&mut r, 8);
+                        f.extend(wb);
+                        f.extend(wrap::junk_clean(&mut r, 8));
+                        ctx.count("files_around_a_pathological_shape");
+                        (f, format!("[{} <- shape: {}]", variant, name), false)
+                    }
+                    _ => {
+                        let g = wrap::assemble(&mut r, 1500, 2);
+                        (g.bytes, g.recipe, true)
+                    }
+                }
+            }
+            4 => {
                 let g = wrap::assemble(&mut r, 1500, 2);
                 (g.bytes, g.recipe, true)
             }
